@@ -221,10 +221,23 @@ def check(chk, repo, tier):
     enc = it.module("vyxal.encoding")
     comp = enc.get("compression")
 
+    # the writer is the *element* q as the table defines it (its template is
+    # run on a one-entry stack), not just the function behind it
+    q_entry = gen.elements().get("q")
+    if not (isinstance(q_entry, tuple) and isinstance(q_entry[0], str)):
+        raise AnalysisError("anchor vanished: element table entry 'q'")
+    try:
+        q_code = ast.parse(q_entry[0]).body
+    except SyntaxError as exc:
+        raise AnalysisError(f"template of 'q' does not parse: {exc}") from None
+    q_ctx = it.instantiate(it.module("vyxal.context").get("Context"), [], {})
+
     def quote(s):
         env = Env(ModuleEnv(el))
-        env.vars["lhs"] = s
-        return it.eval(arm.body, env, el)
+        env.vars["stack"] = [s]
+        env.vars["ctx"] = q_ctx
+        it.exec_block(q_code, env, el)
+        return env.vars["stack"][-1]
 
     sigma = ["\\", "`", '"', "'", "\n", "a", "n", "x", "0", " ", comp[0],
              "{", "%"]
